@@ -11,7 +11,7 @@ fn spec_between_line() {
     assert!(sp::has(sp::s_line(a, b), t) == sp::s_is_on_line(a, t, b));
 }
 
-// @ob id=S1.2 props=C15,C01,C03 tier=quick kind=lemma cache=yes fn="spec: s_rook_moves_lf,s_bishop_moves_lf" desc="loop-free occluded-fill slider attacks equal the ray walks for all squares and all 2^64 occupancies"
+// @ob id=S1.2 props=C15 also=C01,C03 tier=quick kind=lemma cache=yes fn="spec: s_rook_moves_lf,s_bishop_moves_lf" desc="loop-free occluded-fill slider attacks equal the ray walks for all squares and all 2^64 occupancies"
 #[kani::proof]
 #[kani::unwind(9)]
 fn spec_fill_equals_walk() {
@@ -33,7 +33,7 @@ pub fn any_pos() -> sp::Pos {
     p
 }
 
-// @ob id=S1.3 props=C01,C03 tier=quick kind=lemma cache=yes deps=any_pos fn="spec: s_attacked,s_attackers" desc="attack detection by flood fill FROM the attackers equals attack detection by walking rays FROM the target, for all consistent placements, targets, colours and blocker sets"
+// @ob id=S1.3 props=C01 also=C03 tier=quick kind=lemma cache=yes deps=any_pos fn="spec: s_attacked,s_attackers" desc="attack detection by flood fill FROM the attackers equals attack detection by walking rays FROM the target, for all consistent placements, targets, colours and blocker sets"
 #[kani::proof]
 #[kani::unwind(9)]
 fn spec_attacked_two_ways() {
@@ -43,4 +43,109 @@ fn spec_attacked_two_ways() {
     let occ: u64 = kani::any();
     let a = sp::s_attackers(&p, t, by, occ) & !sp::bit(t);
     assert!(sp::s_attacked(&p, t, by, occ) == (a != 0));
+}
+
+// ------------------------------------------------------------------------------------------ S3: symmetries of the rules (C17)
+
+fn any_pos_kings() -> sp::Pos {
+    let mut p = any_pos();
+    kani::assume(sp::s_one_king_each(&p));
+    let e: u8 = kani::any();
+    p.ep = if kani::any() { kani::assume(e < 64); Some(e) } else { None };
+    p
+}
+fn any_mv() -> sp::Mv {
+    let (s, d) = (any_sq_u8(), any_sq_u8());
+    let k: u8 = kani::any();
+    kani::assume(k < 5);
+    sp::Mv { src: s, dst: d, promo: if k == 0 { None } else { Some(k as usize) } }
+}
+
+fn sym_check(flip: bool) {
+    let mut p = any_pos_kings();
+    if flip {
+        p.rights = [0, 0];
+    }
+    let q = if flip { sp::s_flip(&p) } else { sp::s_mirror(&p) };
+    let (c1, p1) = sp::s_check_pin(&p);
+    let (c2, p2) = sp::s_check_pin(&q);
+    if flip {
+        assert!(c2 == sp::s_flip_bb(c1) && p2 == sp::s_flip_bb(p1));
+    } else {
+        assert!(c2 == sp::s_mirror_bb(c1) && p2 == sp::s_mirror_bb(p1));
+    }
+    assert!(sp::s_in_check(&p, p.stm) == sp::s_in_check(&q, q.stm));
+}
+fn sym_legal(flip: bool) {
+    let mut p = any_pos_kings();
+    if flip {
+        p.rights = [0, 0];
+    }
+    kani::assume(sp::s_ep_consistent(&p));
+    let q = if flip { sp::s_flip(&p) } else { sp::s_mirror(&p) };
+    let m = any_mv();
+    let mm = if flip { sp::s_flip_mv(&m) } else { sp::s_mirror_mv(&m) };
+    let l = sp::s_legal(&p, &m);
+    assert!(l == sp::s_legal(&q, &mm));
+    kani::cover!(l);
+}
+fn sym_apply(flip: bool) {
+    let mut p = any_pos_kings();
+    if flip {
+        p.rights = [0, 0];
+    }
+    kani::assume(sp::s_ep_consistent(&p));
+    let q = if flip { sp::s_flip(&p) } else { sp::s_mirror(&p) };
+    let m = any_mv();
+    let mm = if flip { sp::s_flip_mv(&m) } else { sp::s_mirror_mv(&m) };
+    kani::assume(sp::s_pseudo_geom(&p, &m));
+    let a = sp::s_apply(&p, &m);
+    let b = sp::s_apply(&q, &mm);
+    assert!(sp::s_pos_eq(&(if flip { sp::s_flip(&a) } else { sp::s_mirror(&a) }), &b));
+}
+
+// @ob id=S3.1a props=C17 tier=quick kind=lemma cache=yes deps=any_pos,any_pos_kings,sym_check weight=medium fn="spec: s_mirror,s_check_pin,s_in_check" desc="colour symmetry of the rules (code-independent): swapping colours and flipping top-bottom maps the checkers and pinned sets and the in-check status of every position onto their mirror images"
+#[kani::proof]
+#[kani::unwind(9)]
+fn spec_mirror_checkpin() {
+    sym_check(false);
+}
+// @ob id=S3.1b props=C17 tier=quick kind=lemma cache=yes deps=any_pos,any_pos_kings,any_mv,sym_legal weight=medium fn="spec: s_mirror,s_legal" desc="colour symmetry: a move is legal in a position iff the mirrored move is legal in the mirrored position (all positions with consistent en-passant state, all 64x64x5 moves)"
+#[kani::proof]
+#[kani::unwind(9)]
+fn spec_mirror_legal() {
+    sym_legal(false);
+}
+// @ob id=S3.1c props=C17 tier=quick kind=lemma cache=yes deps=any_pos,any_pos_kings,any_mv,sym_apply weight=medium fn="spec: s_mirror,s_apply" desc="colour symmetry: the successor of the mirrored position under the mirrored move is the mirror image of the successor (castling, en passant, promotion, rights included)"
+#[kani::proof]
+#[kani::unwind(9)]
+fn spec_mirror_apply() {
+    sym_apply(false);
+}
+// @ob id=S3.2a props=C17 tier=quick kind=lemma cache=yes deps=any_pos,any_pos_kings,sym_check weight=medium fn="spec: s_flip,s_check_pin,s_in_check" desc="left-right symmetry for positions WITHOUT castling rights: checkers, pinned and in-check status map onto their flipped images"
+#[kani::proof]
+#[kani::unwind(9)]
+fn spec_flip_checkpin() {
+    sym_check(true);
+}
+// @ob id=S3.2b props=C17 tier=quick kind=lemma cache=yes deps=any_pos,any_pos_kings,any_mv,sym_legal weight=medium fn="spec: s_flip,s_legal" desc="left-right symmetry without castling rights: legality is preserved by flipping files a<->h"
+#[kani::proof]
+#[kani::unwind(9)]
+fn spec_flip_legal() {
+    sym_legal(true);
+}
+// @ob id=S3.2c props=C17 tier=quick kind=lemma cache=yes deps=any_pos,any_pos_kings,any_mv,sym_apply weight=medium fn="spec: s_flip,s_apply" desc="left-right symmetry without castling rights: successors map onto flipped successors"
+#[kani::proof]
+#[kani::unwind(9)]
+fn spec_flip_apply() {
+    sym_apply(true);
+}
+
+// @ob id=S3.canary props=C17 tier=quick kind=canary fn="spec: s_mirror" desc="deliberately false: mirroring never changes the checkers set — must FAIL"
+#[kani::proof]
+#[kani::unwind(9)]
+fn spec_mirror_canary() {
+    let p = any_pos_kings();
+    let q = sp::s_mirror(&p);
+    assert!(sp::s_check_pin(&p).0 == sp::s_check_pin(&q).0);
 }
